@@ -21,5 +21,5 @@ func TestWhiteBox(t *testing.T) {
 
 // TestStress is the real-goroutine variant of the white-box check (cached reads concurrent with event application).
 func TestStress(t *testing.T) {
-	hk.RunSub(t, hk.Sub[SPlan]{Name: "s4/cache-stress", Quick: 300, Thorough: 1500, Gen: GenS, Run: RunS, Journal: true})
+	hk.RunSub(t, hk.Sub[SPlan]{Name: "s4/cache-stress", Quick: 800, Thorough: 4000, Gen: GenS, Run: RunS, Journal: true})
 }
